@@ -121,7 +121,8 @@ def _leaf_user_weight(sd, shape):
     if w['type'] == 'array':
         arr = np.asarray(w['data'], dtype=float).reshape(shape)
         dt = np.dtype(sd.get('dtype', 'float64'))
-        if dt in (np.dtype('float32'), np.dtype('complex64')):
+        if dt in (np.dtype('float32'), np.dtype('complex64')) and \
+                not w.get('as64'):
             arr = arr.astype(np.float32)
         return 'array', arr.astype(LD)
     if w['type'] == 'custom':
